@@ -269,11 +269,18 @@ func (in *Interp) svCall(fr *Frame, name string, args []Value, fn *ssa.Function)
 func (in *Interp) outcome(fr *Frame, f Value) (res Value) {
 	defer func() {
 		if r := recover(); r != nil {
+			if _, ok := r.(fatalStack); ok {
+				res = "fatal:stack-overflow"
+				return
+			}
 			gp, ok := r.(*GoPanic)
 			if !ok {
 				panic(r)
 			}
 			res = in.classify(gp)
+			if res == "cast" {
+				in.castSeen++
+			}
 			if len(in.events) < 20 {
 				in.events = append(in.events, "outcome: "+res.(string)+" | "+truncate(ropeDesc(in.panicText(gp)), 200)+" @ "+in.where())
 			}
